@@ -693,7 +693,7 @@ Proof. vm_compute. repeat split; reflexivity. Qed.
 
 (* ------------------------------------------------------------------------------------------------------
    7. Situations the one-step lemmas of section 3 excluded wholesale although no finding class contains them. *)
-(* DeleteColumn of a column that one-column UNIQUE / INDEX keys are made of (multi-column keys: class
+(* DeleteColumn of a column that one-column PRIMARY KEY / UNIQUE / INDEX keys are made of (multi-column keys: class
    C04-composite-member-drop; foreign keys: C04-drop-column-with-foreign-key, C04-fk-lost-by-referenced-column-name) *)
 Theorem sim_mysql_delete_column_keys : forall s a, delete_column_keys_sim_hyp s a = true -> action_sim s a.
 Proof. exact sim_delete_column_keys. Qed.
@@ -713,6 +713,11 @@ Example C04_widened_hypotheses_satisfiable :
   sim_proved_for_r3 w_keys_schema (DeleteColumn "t" "name") = false /\
   sim_proved_for w_keys_schema (DeleteColumn "t" "name") = true /\
   migration_ok w_keys_schema [DeleteColumn "t" "name"] = true /\
+  (* the single primary-key column (here even AUTO_INCREMENT) is dropped and another primary key follows *)
+  sim_proved_for_r3 w_keys_schema (DeleteColumn "t" "id") = false /\
+  sim_proved_for w_keys_schema (DeleteColumn "t" "id") = true /\
+  sim_proved_for (step w_keys_schema (DeleteColumn "t" "id")) (AddConstraint "t" (CPrimaryKey false ["name"])) = true /\
+  migration_ok w_keys_schema w_pk_drop_plan = true /\
   rename_column_sim_hyp w_named_schema (RenameColumn "t" "u_id" "owner_id") = false /\
   rename_column_named_sim_hyp w_named_schema (RenameColumn "t" "u_id" "owner_id") = true /\
   sim_proved_for_r3 w_named_schema (RenameColumn "t" "u_id" "owner_id") = false /\
